@@ -267,6 +267,8 @@ type loopInfo struct {
 	ordinal int
 	next    *ssa.Next
 	idxPhi  *ssa.Phi
+	lenVal  ssa.Value // n in `idx+1 < n` of a range-over-slice loop
+	ranged  ssa.Value // the slice being ranged over
 }
 
 func (u *Unit) loopInfo(h *ssa.BasicBlock) loopInfo {
@@ -279,6 +281,27 @@ func (u *Unit) loopInfo(h *ssa.BasicBlock) loopInfo {
 			}
 		case *ssa.Next:
 			li.next = x
+		case *ssa.If:
+			if b, ok := x.Cond.(*ssa.BinOp); ok && b.Op == token.LSS && li.idxPhi != nil {
+				if inc, ok := b.X.(*ssa.BinOp); ok && inc.X == li.idxPhi {
+					li.lenVal = b.Y
+					// the ranged slice: the operand of len() that produced n, or of an IndexAddr by idx+1
+					if call, ok := b.Y.(*ssa.Call); ok {
+						if bi, ok := call.Call.Value.(*ssa.Builtin); ok && bi.Name() == "len" {
+							li.ranged = call.Call.Args[0]
+						}
+					}
+					if li.ranged == nil {
+						for blk := range u.loopBlocks[h] {
+							for _, bi := range blk.Instrs {
+								if ia, ok := bi.(*ssa.IndexAddr); ok && ia.Index == ssa.Value(inc) {
+									li.ranged = ia.X
+								}
+							}
+						}
+					}
+				}
+			}
 		}
 	}
 	return li
@@ -298,6 +321,19 @@ func (u *Unit) loopCtx(st *State, h *ssa.BasicBlock, phis map[*ssa.Phi]Term) *Ev
 		if t, ok := phis[li.idxPhi]; ok {
 			ctx.vars["__h_i"] = mkT(add(t, intLit(1)).S, SInt, types.Typ[types.Int])
 		}
+		if li.ranged != nil {
+			if t, ok := st.vals[li.ranged]; ok && t.Sort == SSlice {
+				t.T = li.ranged.Type()
+				ctx.vars["__h_slice"] = t
+			}
+		}
+		if li.lenVal != nil {
+			if t, ok := st.vals[li.lenVal]; ok {
+				ctx.vars["__h_n"] = mkT(t.S, SInt, types.Typ[types.Int])
+			} else if c, ok := li.lenVal.(*ssa.Const); ok {
+				ctx.vars["__h_n"] = u.constTerm(c)
+			}
+		}
 	}
 	if li.next != nil {
 		if it, ok := st.iters[li.next.Iter.(*ssa.Range)]; ok {
@@ -308,6 +344,15 @@ func (u *Unit) loopCtx(st *State, h *ssa.BasicBlock, phis map[*ssa.Phi]Term) *Ev
 				ctx.vars["__h_seen"] = it.seen
 				ctx.vars["__h_map"] = mkT(it.mref.S, SInt, it.mT)
 			}
+		}
+	}
+	if snap, ok := st.loopSnap[u.headers[h]]; ok {
+		ctx.loopSnap = snap
+	}
+	for k, t := range st.loopIn {
+		pre := fmt.Sprintf("%d:", u.headers[h])
+		if strings.HasPrefix(k, pre) {
+			ctx.vars["__h_in_"+strings.TrimPrefix(k, pre)] = t
 		}
 	}
 	u.bindLocals(ctx, st, h)
@@ -347,9 +392,6 @@ func (u *Unit) bindLocals(ctx *EvalCtx, st *State, at *ssa.BasicBlock) {
 		// keep only values that currently have a term
 		var live []ssa.Value
 		for v := range vs {
-			if _, isPhi := v.(*ssa.Phi); isPhi {
-				continue
-			}
 			if _, ok := st.vals[v]; ok {
 				live = append(live, v)
 			} else if _, ok := v.(*ssa.Const); ok {
@@ -380,6 +422,10 @@ func (u *Unit) loopClauses(h *ssa.BasicBlock) (inv []Clause, dec *Clause) {
 	if li.idxPhi != nil {
 		e, _ := parseExpr("0 <= #i")
 		inv = append(inv, Clause{Text: "0 <= #i (auto)", Expr: e})
+		if li.lenVal != nil {
+			e, _ := parseExpr("#i <= #n || #n < 0")
+			inv = append(inv, Clause{Text: "#i <= #n (auto)", Expr: e})
+		}
 	}
 	if li.next != nil {
 		if _, isStr := li.next.Iter.(*ssa.Range).X.Type().Underlying().(*types.Basic); isStr {
@@ -413,6 +459,19 @@ func (u *Unit) loopEnter(st *State, from, h *ssa.BasicBlock) {
 			panic(evalErr{fmt.Sprintf("contract names loop %d but %s has %d loops", max, u.key, len(u.headers))})
 		}
 	}
+	if st.loopIn == nil {
+		st.loopIn = map[string]Term{}
+	}
+	if st.loopSnap == nil {
+		st.loopSnap = map[int]*State{}
+	}
+	st.loopSnap[u.headers[h]] = st.clone()
+	for phi, t := range in {
+		if phi.Comment != "" {
+			t.T = phi.Type()
+			st.loopIn[fmt.Sprintf("%d:%s", u.headers[h], phi.Comment)] = t
+		}
+	}
 	// 1. invariant holds on entry
 	for _, c := range inv {
 		ctx := u.loopCtx(st, h, in)
@@ -427,14 +486,6 @@ func (u *Unit) loopEnter(st *State, from, h *ssa.BasicBlock) {
 		u.oblige(s2, "inv-init", h.Instrs[0].Pos(), g, fmt.Sprintf("loop %d: %s", u.headers[h], c.Text), c.Tags)
 	}
 	// 2. havoc what the loop changes
-	phis := map[*ssa.Phi]Term{}
-	for _, ins := range h.Instrs {
-		phi, ok := ins.(*ssa.Phi)
-		if !ok {
-			break
-		}
-		phis[phi] = u.freshOf(st, "phi_"+phi.Comment, phi.Type())
-	}
 	mods := u.loopModifies(h)
 	if mods.all {
 		u.havocAll(st)
@@ -443,8 +494,18 @@ func (u *Unit) loopEnter(st *State, from, h *ssa.BasicBlock) {
 			u.havocComp(st, comp)
 		}
 	}
+	// earlier iterations may have allocated: advance the allocation bound before
+	// the loop-carried values are introduced (they may refer to those objects)
 	if mods.allocates || mods.all {
 		u.advanceAlloc(st)
+	}
+	phis := map[*ssa.Phi]Term{}
+	for _, ins := range h.Instrs {
+		phi, ok := ins.(*ssa.Phi)
+		if !ok {
+			break
+		}
+		phis[phi] = u.freshOf(st, "phi_"+phi.Comment, phi.Type())
 	}
 	for _, g := range sortedKeys(mods.ghosts) {
 		if cur, ok := st.ghost[g]; ok {
